@@ -45,13 +45,17 @@ pub fn primitive_equals(a: &Val, b: &Val) -> Result<bool> { Ok(match (a, b) { (V
 // --- (b) cached object-local contexts
 #[derive(Debug, Clone, Copy, PartialEq, Eq)]
 pub struct CoreIdx { pub idx: usize }
+// mirrors the real API surface: SupThis::{downgrade, this, has_super}, ObjValue::downgrade, WeakObjValue / WeakSupThis as hashable keys
 #[derive(Debug, Clone, Copy, PartialEq, Eq)]
-pub struct SupThis { pub sup: CoreIdx, pub this: u8 }
+pub struct ObjH(pub u8);
 #[derive(Debug, Clone, Copy, PartialEq, Eq)]
-pub struct WeakSupThis { pub sup: CoreIdx, pub this: u8 }
+pub struct WeakObjValue(pub u8);
+impl ObjH { pub fn downgrade(self) -> WeakObjValue { WeakObjValue(self.0) } }
 #[derive(Debug, Clone, Copy, PartialEq, Eq)]
-pub struct WeakObj(pub u8);
-impl SupThis { pub fn downgrade(self) -> WeakSupThis { WeakSupThis { sup: self.sup, this: self.this } } pub fn this(&self) -> &u8 { &self.this } }
+pub struct SupThis { pub sup: CoreIdx, pub this: ObjH }
+#[derive(Debug, Clone, Copy, PartialEq, Eq)]
+pub struct WeakSupThis { pub sup: CoreIdx, pub this: WeakObjValue }
+impl SupThis { pub fn downgrade(self) -> WeakSupThis { WeakSupThis { sup: self.sup, this: self.this.downgrade() } } pub fn this(&self) -> &ObjH { &self.this } pub fn has_super(&self) -> bool { self.sup.idx != 0 } }
 pub trait Unbound: Trace { type Bound; fn bind(&self, sup_this: SupThis) -> Result<Self::Bound>; }
 /// small association list standing in for FxHashMap (get / insert / new)
 pub struct FxHashMap<K, V> { items: [Option<(K, V)>; 4] }
@@ -129,7 +133,7 @@ mod harness {
     // ---- cached unbound
     static mut BINDS: u8 = 0;
     struct Inner;
-    impl Unbound for Inner { type Bound = u8; fn bind(&self, st: SupThis) -> Result<u8> { unsafe { BINDS += 1; } if st.this == 9 { Err(Error(7)) } else { Ok((st.sup.idx as u8) * 16 + st.this) } } }
+    impl Unbound for Inner { type Bound = u8; fn bind(&self, st: SupThis) -> Result<u8> { unsafe { BINDS += 1; } if st.this.0 == 9 { Err(Error(7)) } else { Ok((st.sup.idx as u8) * 16 + st.this.0) } } }
 
     /// the cached context is per (object, super position): same key -> bound once; a different super position or
     /// a different object -> its own binding (never a stale one); failures are not cached as successes
@@ -137,14 +141,14 @@ mod harness {
     #[kani::unwind(6)]
     fn h_cached_unbound() {
         let c = CachedUnbound::new(Inner);
-        let s1 = SupThis { sup: CoreIdx { idx: kani::any() }, this: kani::any() };
-        let s2 = SupThis { sup: CoreIdx { idx: kani::any() }, this: kani::any() };
-        kani::assume(s1.sup.idx < 4 && s2.sup.idx < 4 && s1.this < 4 && s2.this < 4);
+        let s1 = SupThis { sup: CoreIdx { idx: kani::any() }, this: ObjH(kani::any()) };
+        let s2 = SupThis { sup: CoreIdx { idx: kani::any() }, this: ObjH(kani::any()) };
+        kani::assume(s1.sup.idx < 4 && s2.sup.idx < 4 && s1.this.0 < 4 && s2.this.0 < 4);
         let a1 = c.bind(s1); let a2 = c.bind(s1);
         unsafe { assert!(BINDS == 1, "obligation: object locals are bound at most once per (object, super position)"); }
-        assert!(a1 == Ok((s1.sup.idx as u8) * 16 + s1.this) && a2 == a1, "obligation: cached binding is the binding of that key");
+        assert!(a1 == Ok((s1.sup.idx as u8) * 16 + s1.this.0) && a2 == a1, "obligation: cached binding is the binding of that key");
         let b1 = c.bind(s2);
-        assert!(b1 == Ok((s2.sup.idx as u8) * 16 + s2.this), "obligation: a different object or super position gets its own binding, never a cached one of another key");
+        assert!(b1 == Ok((s2.sup.idx as u8) * 16 + s2.this.0), "obligation: a different object or super position gets its own binding, never a cached one of another key");
         unsafe { assert!(BINDS == if s1 == s2 { 1 } else { 2 }); }
         kani::cover!(s1.this == s2.this && s1.sup != s2.sup);
         kani::cover!(s1 == s2);
